@@ -95,6 +95,9 @@ func c0102(rep *ev.Reporter, tier string, judge func(c *Case, tr *hx.Trace, w *r
 	gen := func(emit func(Case)) {
 		depMatrix(nShapes, maxCycle, emit)
 		general2(tier, maxCycle, emit)
+		if tier == "thorough" {
+			general3(5, emit)
+		}
 		// the same dependency matrix on knowledge bases that went through binary store + load (the
 		// loader, not the builder, rebuilds the variable index there); quick: every 3rd cell
 		n := 0
@@ -116,7 +119,7 @@ func c0102(rep *ev.Reporter, tier string, judge func(c *Case, tr *hx.Trace, w *r
 			emit(c)
 		})
 	}
-	RunFamily(rep, gen, 3000, bud, judge)
+	RunFamily(rep, gen, 1500, bud, judge)
 	rep.Assumptions = append(rep.Assumptions,
 		"fact states in which two different syntactic paths alias through pointers are excluded (invalidation is syntactic by design); aliasing through selectors of one container is included",
 		"fact methods in conditions are pure functions of their arguments; hidden receiver state changes are announced with Forget/Changed",
